@@ -1937,7 +1937,7 @@ func runC16(c *Ctx) {
 	nsig, per := 160, 16
 	nflt := 20000
 	if c.Thorough {
-		nsig, per, nflt = 3600, 24, 400000
+		nsig, per, nflt = 3000, 24, 400000
 	}
 	x.floats(nflt)
 	nstr := 1500
